@@ -112,7 +112,7 @@ def run(prop, tier, seed):
         ops = gen.random_history(rng, length, keys, vals, FOPS)
         # lifecycle of the sharded cache itself: pickle / copy / reopen at random points
         for _ in range(rng.randint(0, 4)):
-            ops.insert(rng.randrange(len(ops) + 1), {'op': rng.choice(['pickle', 'pickle', 'copy', 'reopen']), 'a': {}})
+            ops.insert(rng.randrange(len(ops) + 1), {'op': rng.choice(['pickle', 'pickle', 'copy', 'reopen']), 'a': {}, 'form': rng.randrange(2)})
         for o in ops:
             if o['op'] == 'iter':
                 o['a']['sorted'] = 0
